@@ -78,6 +78,32 @@ def slow_construction():
     return out
 
 
+def slow_and_declined(ppt):
+    """Exchanges that are slow but healthy - several packets, every gap well below the per-packet timeout, the whole exchange longer than
+    it (a customer typing a PIN, a terminal talking to its host) - keep the connection; a payment the terminal declines with a status
+    information (result code set) followed by the abort is an exchange like any other: whatever the client makes of it, the next
+    operation runs on a sound connection."""
+    ok = {"o": "ok", "status": {"amount": [1]}, "uid": [1, 2, 3, 4]}
+    gap = ppt * 1000 * 5 // 12           # 25 s for the shipped 60 s
+    out = []
+    for n in (2, 3, 5):
+        slow = dict(ok, inter=n, delays=[gap] * (n + 3))
+        for calls in ([{"op": "begin", "token": [97], "amount": []}, {"op": "begin", "token": [98], "amount": []}],
+                      [{"op": "begin", "token": [97], "amount": []}, {"op": "commit", "token": [97], "amount": [1]}, {"op": "read_card"}],
+                      [{"op": "begin", "token": [97], "amount": []}, {"op": "cancel", "token": [97], "amount": []}, {"op": "read_card"}],
+                      [{"op": "configure"}, {"op": "read_card"}]):
+            out.append({"config": {"max": 2}, "calls": calls, "plan": {"exchanges": [slow], "default": ok}})
+            out.append({"config": {"max": 2}, "calls": calls, "plan": {"exchanges": [ok, slow], "default": ok}})
+            out.append({"config": {"max": 2}, "calls": calls, "plan": {"exchanges": [ok, ok, slow], "default": ok}})
+    for code in (5, 0x6c, 0xff):
+        for res in (5, 0x6c, 1, 255):
+            declined = {"o": "abort", "code": code, "status_first": True, "status_result": res}
+            for nxt in ({"op": "begin", "token": [98], "amount": []}, {"op": "read_card"}, {"op": "begin", "token": [97], "amount": []}):
+                out.append({"config": {"max": 2}, "calls": [{"op": "begin", "token": [97], "amount": []}, nxt, {"op": "read_card"}],
+                            "plan": {"exchanges": [declined], "default": ok}})
+    return out
+
+
 def run(chk):
     wd = vlib.workdir("C09")
     thorough = chk.tier == "thorough"
@@ -88,7 +114,7 @@ def run(chk):
     ppt, rcm = cl.calibrate(chk, binary)
     sc = cl.gen_scenarios(chk, "C09", thorough, ppt, rcm)
     walks = multi_fault(chk.seed, 5000 if thorough else 200)
-    out = cl.run_scenarios(binary, sc + serial_variants() + slow_construction() + walks, wd, "c09")
+    out = cl.run_scenarios(binary, sc + serial_variants() + slow_construction() + slow_and_declined(ppt) + walks, wd, "c09")
     outs, pfl = cl.validate_conn(chk, out, wd, "c09", shard=200, ppt=ppt, rcm=rcm)
     cl.report_conn(chk, outs, pfl, {"P09"}, WHAT)
     cl.validate_stream(chk, out, wd, "c09", ppt=ppt, rcm=rcm)
